@@ -809,6 +809,34 @@ def replay_threshold(name, n):
   if n > 3 * 10**6:
     print('n too large to replay concretely')
     return False
+  if name in ('BlockFrequency', 'LongestRuns') and n >= minimum:
+    # parameter rule: observe the block size handed to SplitSequence
+    seen = []
+    orig_split = util.SplitSequence
+
+    def spy(bits, nn, m_):
+      seen.append(m_)
+      return orig_split(bits, nn, m_)
+
+    util.SplitSequence = spy
+    try:
+      fn()
+    except ns.InsufficientDataError:
+      print(name, 'n =', n, 'InsufficientDataError above the minimum')
+      return True
+    finally:
+      util.SplitSequence = orig_split
+    if not seen:
+      return True
+    m_ = seen[0]
+    if name == 'BlockFrequency':
+      ok = m_ >= 20 and n // m_ < 100 and (
+          m_ == 20 or (m_ >= 32 and n // (m_ // 2) >= 100))
+    else:
+      ok = m_ == (10000 if n >= 750000 else 128 if n >= 6272 else 8)
+    print(name, 'n =', n, 'block size', m_, 'rule holds' if ok else
+          'rule violated')
+    return not ok
   try:
     fn()
     raised = False
